@@ -90,6 +90,7 @@ fn directed_f1(scratch: &std::path::Path) -> Result<Option<String>, String> {
         txns: t.txns.clone(),
         failed: failed.clone(),
         failed_recs: vec![],
+base_required: 0,
         plans: vec![last],
         probe_every: 0,
         base_dir: None,
@@ -163,6 +164,7 @@ fn directed_f2(scratch: &std::path::Path) -> Result<Option<String>, String> {
             txns: t.txns.iter().filter(|x| x.first_seq > 0).cloned().collect(),
             failed: t.failed.iter().map(|f| f.id).collect(),
             failed_recs: vec![],
+base_required: 0,
             plans: plans.clone(),
             probe_every: 0,
             base_dir: None,
@@ -438,6 +440,7 @@ pub fn run(a: &Args) -> i32 {
             txns: t.txns.iter().filter(|x| x.first_seq > 0).cloned().collect(),
             failed: t.failed.iter().map(|f| f.id).collect(),
             failed_recs: if b.w.committers == 1 { t.failed.clone() } else { vec![] },
+base_required: 0,
             plans: keep.clone(),
             probe_every: 0,
             base_dir: None,
